@@ -10,11 +10,12 @@
   * PARAMETRIC theorems (namespace `WhenAllN`): for every number of children N ≥ 1 and every configuration
     (outcomes of the children, which leaves complete inside their stop callback, with/without external
     stop, when_all/when_all_range), by invariant induction.
-  * INSTANCE theorems (`*_safe`): the full Boolean predicate `safe` (it adds deadlock-freedom — no blocking
-    deregistration can wait forever —, the result precedence and exactly-once at the end) for fixed small
-    configurations, by kernel-evaluated reflection (`decide +kernel`).  More instances: Props/C04_Atomic.
+  * INSTANCE theorems (`*_safe`, in Props/C01_AtomicInst.lean and Props/C01_AtomicSW.lean so that they
+    build in parallel): the full Boolean predicate `safe` (it adds deadlock-freedom — no blocking
+    deregistration can wait forever — and exactly-once at the end) for fixed small configurations, by
+    kernel-evaluated reflection (`decide +kernel`).
 -/
-import UnifexModel.Lemmas.WhenAllInvC
+import UnifexModel.Lemmas.WhenAllInvE
 import UnifexModel.Lemmas.Witness
 
 namespace Unifex.Props.C01Atomic
@@ -73,56 +74,31 @@ theorem exactly_once_at_end (cfg : Config) (hn : 0 < cfg.n) :
   · exact .inr (.inr (.inr (.inr (.inr h))))
   · exact .inl h.2
 
+/-- **Result precedence** (receiver stop > first error/done > values), for every N and schedule:
+    * a value result means that every child completed with a value and the receiver's stop flag was clear
+      when `deliver_result()` looked at it;
+    * `error k` means that child k won the `doneOrError_` exchange with an error (again with the flag clear);
+    * `done` means that the flag was set (when_all only; when_all_range never looks at it), or else that
+      the winner of the exchange completed with done. -/
+theorem result_precedence (cfg : Config) (hn : 0 < cfg.n) :
+    ∀ s, Reach (sys cfg) s →
+      (s.result = some .value → (∀ c ∈ s.ch, c.out = .value) ∧ s.recvAtDlv = false) ∧
+      (∀ k, s.result = some (.error k) →
+        s.firstFail = some k ∧ s.recvAtDlv = false ∧ ∀ c, s.ch[k]? = some c → c.out = .error) ∧
+      (s.result = some .done →
+        (cfg.checksRecv = true ∧ s.recvAtDlv = true) ∨
+        (s.recvAtDlv = false ∧ s.firstFail ≠ none ∧
+          ∀ k, s.firstFail = some k → ∀ c, s.ch[k]? = some c → c.out = .done)) := by
+  intro s hs
+  have he := invE_reach hn hs
+  exact ⟨he.rv, he.re, he.rd⟩
+
+/-- nothing is reported before the signal -/
+theorem no_result_before_signal (cfg : Config) (hn : 0 < cfg.n) :
+    ∀ s, Reach (sys cfg) s → s.delivered = 0 → s.result = none :=
+  fun _ hs hd => ((invE_reach hn hs).e6 hd).1
+
 end WhenAllN
-
-/-! ### instances by reflection: `safe` for every reachable state -/
-
-section WhenAllInstances
-open Unifex.Proto.WhenAll
-
-/-- What `safe` says, spelled out. -/
-theorem safe_spelled (cfg : Config) (s : St) (h : safe cfg s = true) :
-    -- nothing touches the operation state after the receiver was signalled
-    s.bad = 0
-    -- at most one completion signal
-    ∧ s.delivered ≤ 1
-    -- and only after every child has finished its completion call
-    ∧ (s.delivered = 0 ∨ ∀ c ∈ s.ch, c.ph = .fin)
-    -- no deadlock: every blocking deregistration eventually proceeds
-    ∧ (((sys cfg).next s).isEmpty = true → final cfg s = true)
-    -- exactly once at the end
-    ∧ (final cfg s = true → s.delivered = 1)
-    -- result precedence: receiver stop > first error/done > values
-    ∧ resultOk cfg s = true := by
-  unfold safe at h
-  simp only [Bool.and_eq_true, decide_eq_true_eq, List.all_eq_true, Bool.or_eq_true, Bool.not_eq_true'] at h
-  obtain ⟨⟨⟨⟨⟨⟨⟨⟨⟨h1, h2⟩, h3⟩, _⟩, h5⟩, h6⟩, h7⟩, _⟩, _⟩, _⟩ := h
-  refine ⟨h1, h2, ?_, ?_, ?_, h7⟩
-  · rcases h3 with h3 | h3
-    · exact .inl h3
-    · exact .inr h3
-  · intro hd
-    rcases h5 with h5 | h5
-    · simp [hd] at h5
-    · exact h5
-  · intro hf
-    rcases h6 with h6 | h6
-    · simp [hf] at h6
-    · exact h6
-
-theorem wa2_race_safe : ∀ s, Reach (sys cfgWa2Race) s → safe cfgWa2Race s = true :=
-  safe_of_check _ { coded with M := 67, W := 120 } 400 _ (by decide +kernel)
-
-theorem wa1_stop_safe : ∀ s, Reach (sys cfgWa1Stop) s → safe cfgWa1Stop s = true :=
-  safe_of_check _ { coded with M := 251, W := 100 } 400 _ (by decide +kernel)
-
-theorem wa2_valinl_stop_safe : ∀ s, Reach (sys cfgWa2ValInlStop) s → safe cfgWa2ValInlStop s = true :=
-  safe_of_check _ { coded with M := 307, W := 120 } 400 _ (by decide +kernel)
-
-theorem wa3_fail_inl_safe : ∀ s, Reach (sys cfgWa3FailInl) s → safe cfgWa3FailInl s = true :=
-  safe_of_check _ { coded with M := 421, W := 140 } 400 _ (by decide +kernel)
-
-end WhenAllInstances
 
 /-! ### non-vacuity: interesting final states are reachable (explicit schedules) -/
 
